@@ -614,7 +614,7 @@ UUID_VALUES = ["cbA", "dbA", "pxA", "syA1", "syA2", "secA", "biA", "modA", "ir",
 OTHER_FAULTS = ["none", "size_lt_contents", "block_no_kind", "expr_no_kind", "enum_isa", "enum_ff", "enum_bo", "enum_flag", "enum_dm", "enum_edge",
                 "enum_attr", "dup_module_entry", "empty_name", "entry_other_module", "referent_later_module", "contents_eq_size", "vertices_garbage",
                 "symbol_both_payloads", "two_sections_same_interval", "version_zero", "dup_proxy_later_module", "dup_symbol_later_module",
-                "dup_proxy_same_module", "dup_section_later_module"]
+                "dup_proxy_same_module", "dup_section_later_module", "sibling_code_dup", "sibling_data_dup", "sibling_code_dup_unref"]
 
 
 def _uv(name):
@@ -712,6 +712,23 @@ def _apply_other(msg, fault, num):
     elif fault == "dup_section_later_module":
         s3 = msg.modules[2].sections.add()
         s3.uuid = ub("secB")
+    elif fault in ("sibling_code_dup", "sibling_data_dup", "sibling_code_dup_unref"):
+        # two blocks of ONE interval (same kind) carrying one UUID
+        nb = bi.blocks.add()
+        nb.offset = 6
+        if fault == "sibling_code_dup":
+            nb.code.uuid = ub("cbA")
+            nb.code.size = 1
+        elif fault == "sibling_data_dup":
+            nb.data.uuid = ub("dbA")
+            nb.data.size = 1
+        else:
+            nb.code.uuid = UUID(int=651).bytes
+            nb.code.size = 1
+            nb = bi.blocks.add()
+            nb.offset = 7
+            nb.code.uuid = UUID(int=651).bytes
+            nb.code.size = 1
 
 
 def run_fault(field, value, fault, num):
